@@ -466,6 +466,11 @@ CORPUS3 = {"nf": 48, "fmax": 1.0, "nd": 36,
 
 def gen_sea(rng, stream):
     fp = rng.choice([0.08, 0.1, 0.125, 0.15, 0.2, 0.25, 0.3, 0.4]) * rng.choice([1.0, 1.0, 1.06, 0.94])
+    hf = stream == "main" and rng.random() < 0.12
+    if hf:
+        # very young wind seas peaking above 0.5 Hz (small lakes, fetch-limited): the first guess comes from the
+        # equilibrium range above the default fmax of the wind estimate
+        fp = rng.choice([0.55, 0.65, 0.75])
     if stream == "main":
         ratio = rng.uniform(1.3, 2.5)
     elif stream == "marginal":
@@ -478,6 +483,8 @@ def gen_sea(rng, stream):
                                                     rng.uniform(0, 360)]),
            "width": rng.choice([20.0, 30.0, 40.0]), "depth": depth,
            "gamma": rng.choice([1.0, 2.0, 3.3, 3.3]), "stream": stream, "ratio": ratio}
+    if hf:
+        sea["hf"] = True
     if stream == "main" and rng.random() < 0.15:
         sea["swell"] = {"fp": rng.choice([0.06, 0.07, 0.08]), "hs": rng.uniform(0.3, 1.5), "dir": rng.uniform(0, 360)}
     return sea
@@ -539,8 +546,9 @@ def real_cases(ctx):
         if rng.random() < 0.45:
             dedt = {"c1": rng.choice([-1, 1]) * rng.uniform(1e-5, 5e-5), "c2": rng.choice([-1, 1]) * rng.uniform(2e-5, 1e-4),
                     "c3": rng.choice([-1, 1]) * rng.uniform(1e-7, 2e-6)}
-        batches.append(dict(pair=rng.choice([["st4", "st4"], ["st4", "st6"]]), nf=rng.choice([36, 48]),
-                            fmax=rng.choice([0.8, 1.0]), nd=rng.choice([24, 36]), dedt=dedt,
+        anyhf = any(x.get("hf") for x in seas)
+        batches.append(dict(pair=rng.choice([["st4", "st4"], ["st4", "st6"]]), nf=(64 if anyhf else rng.choice([36, 48])),
+                            fmax=(2.0 if anyhf else rng.choice([0.8, 1.0])), nd=rng.choice([24, 36]), dedt=dedt,
                             diriter=(rng.random() < 0.15), seas=seas, corpus=False))
     cases = []
     for bt in batches:
